@@ -24,7 +24,8 @@ CLAIMS = {
   "technique": "whole-program effect analysis over the resolved call graph + trait-solver auto-trait query + MIR alpha-equivalence / delegation check",
   "text": "Decides the structural clauses of C17: no clock/RNG/env/fs/process/thread/atomic/TypeId/static/hash-order effect is reachable from any public muxing entry point (negative fact over all paths); the thread-local log is write-only for muxing; "
           "the sink type is used only through std::io::Write; Muxer<W>/MuxerBuilder<W>: Send<=W: Send and Sync<=W: Sync for all W (solver query in a parameter environment, non-vacuous), FragmentedMuxer: Send+Sync; "
-          "finish/flush/finish_with_stats/finish_in_place are single pass-through delegations, builder aliases have alpha-equal bodies, codec None yields no audio track.",
+          "finish/flush/finish_with_stats/finish_in_place are single pass-through delegations, builder aliases have alpha-equal bodies, codec None yields no audio track."
+          " R6: every API route to title / language / creation time stores the parameter itself (no rewriting on one route).",
   "note": "Trusted: classification of external callees (lib/mx/externals.py), rustc trait solver. One reasoned exception: Metadata::with_current_time (explicit request for 'now' as input). Not decided: f64 accumulation of encode_* vs explicit timestamps (numeric)."},
  "C05": {
   "technique": "interprocedural error-path purity (store inventory x CFG reachability to Err/`?` exits) on MIR",
@@ -36,7 +37,8 @@ CLAIMS = {
   "technique": "store inventory + dominance + guard extraction on MIR (fragmented muxer), layout interpretation for the segment builder",
   "text": "Decides the conservation argument structurally for every write/flush/query interleaving: the only mutations of the sample queue are push (write) and mem::take (flush) and the builder gets exactly the taken vector; the None exit of flush is store-free; "
           "the sequence counter starts at 1, is incremented once after the builder call which receives the pre-increment value; the only rejection is guarded by dts < last_dts and is store-free; readiness queries are &self and pure. R8: no field of a queued or taken fragment sample is stored to after the push."
-          " R9: every field of the record queued by write_video is the call's own parameter (payload: exact copy of the slice).",
+          " R9: every field of the record queued by write_video is the call's own parameter (payload: exact copy of the slice)."
+          " R1: the segment builder receives the whole taken queue exactly once per flush.",
   "note": "Relies on std contracts of mem::take and Vec::push. R4/R5 (data_offset and same-samples-same-order in trun/mdat) are layout rules."},
  "C19": {
   "technique": "layout interpretation of typed HIR (symbolic byte productions of all box builders) compared with specification transcriptions",
@@ -55,7 +57,8 @@ CLAIMS = {
  "C02": {
   "technique": "layout interpretation: derived box tree of every emitted stream vs containment/cardinality schema; symbolic width identities",
   "text": "For every configuration at once: the box constructor writes size == 8+len(payload) == its width; every container payload is child boxes only (so sizes tile recursively for every input); each alternative of each container "
-          "matches a schema transcribed from ISO/IEC 14496-12 (mandatory boxes once, optional at most once, no strangers, one-of groups); top-level order/cardinality of progressive file, init segment (mvex/trex) and media segment; count fields == entries emitted; mdat size == 8 + payloads. Cross-table: the sample-to-chunk table gets an entry only on paths where chunk count and samples-per-chunk are entailed non-zero.",
+          "matches a schema transcribed from ISO/IEC 14496-12 (mandatory boxes once, optional at most once, no strangers, one-of groups); top-level order/cardinality of progressive file, init segment (mvex/trex) and media segment; count fields == entries emitted; mdat size == 8 + payloads. Cross-table: the sample-to-chunk table gets an entry only on paths where chunk count and samples-per-chunk are entailed non-zero."
+          " R6: stts/ctts run-length builders account for every element (table counts agree with stsz/stco).",
   "note": "32-bit size overflow is C16. Trusted: schema transcription, interpreter."},
  "C08": {
   "technique": "symbolic width identities and production equality on the file productions; MIR data flow of the fast_start flag",
@@ -69,14 +72,16 @@ CLAIMS = {
  "C03": {
   "technique": "data-dependence slices on MIR + symbolic moov production (durations / composition offsets)",
   "text": "Decides the shape behind the timing property for all timestamp sequences: every tick handed to the inner writer is cast(round(own timestamp parameter * 90000)) with no state in its slice (no drift by construction); the duration back-patch is this-minus-previous of the writer's monotone timestamp, stored to the last sample and the last-delta field; "
-          "the final sample's fall-back is the track's own last delta; mdhd duration is the sum over the list behind stts; composition offsets are pts-dts and ctts is conditional on the fold of `offset != 0` over exactly those offsets. R6: the stts/ctts run-length encoders extend a run only under exact equality with the current element and otherwise push (1, element).",
+          "the final sample's fall-back is the track's own last delta; mdhd duration is the sum over the list behind stts; composition offsets are pts-dts and ctts is conditional on the fold of `offset != 0` over exactly those offsets. R6: the stts/ctts run-length encoders extend a run only under exact equality with the current element and otherwise push (1, element)."
+          " R6 also: every element reaches the increment or the push; R4 also: every delta stts emits is a function of the current element only.",
   "note": "Not decided: arithmetic of the run-length encoders and f64 rounding for particular cadences (value-level)."},
  "C04": {
   "technique": "guard extraction (dominating switch edges + operand-role slices) on MIR; total-match error map via HIR interpretation; typestate dominance; complete finite-domain tabulation of extracted classifier / validator tables (interpretation of the dumped MIR, nothing executed)",
   "text": "For every builder / write / finish entry point and the inner writers: each documented precondition has an error exit of the documented variant whose nearest dominating guard is the documented predicate on the documented operands (relation canonicalised incl. strictness, invariant under a<=b <-> !(a>b)); no undocumented rejection exists; "
           "success exits lie on the not-finished edge; the internal->public error conversion equals the documented table; sibling video entry points maintain each other's monotonicity state (defect found and repaired); ADTS/Opus validators are guarded on the frame bytes / codec arm."
           " R7: encode_video's own keyframe decision is tabulated over all 256 NAL header bytes (1- and 2-NAL frames) by finite-domain interpretation of the dumped MIR and must equal the codec module's public classifier (H.264, H.265)."
-          " R8: ADTS acceptance table (every header field over all its values, every short length) by finite-domain interpretation. R9: the VP9 keyframe classifier and configuration extractor accept the same frame-header and marker bytes.",
+          " R8: ADTS acceptance table (every header field over all its values, every short length) by finite-domain interpretation. R9: the VP9 keyframe classifier and configuration extractor accept the same frame-header and marker bytes."
+          " R10: finish refuses only when already finished, on a sink failure or on a 32-bit size limit (all error exits / `?` of the finalisation tree). R11: parameter sets are found wherever they stand in the first keyframe (C07.R13 instances).",
   "note": "Table transcribed from docs/contract.md and the property statement (lib/mx/rules/c04.py TABLE). NaN/sub-tick behaviour of f64 comparisons is value-level and not decided. Consuming finish() is a type-level fact (thorough-tier witness)."},
  "C07": {
   "technique": "layout interpretation (stsd selection, records) + HIR evaluation of writer/builder functions + MIR guard extraction for parameter-set slots; read-program extraction vs specification syntax; complete finite-domain tabulation of bit-reader / slot tables (interpretation of the dumped MIR, nothing executed)",
@@ -87,7 +92,8 @@ CLAIMS = {
   "note": "Not decided: bit-level correctness of the AV1 sequence-header and VP9 header parsers (value-level). Shares the record-layout instances with C19."},
  "C09": {
   "technique": "layout interpretation: enumeration of the audio trak production for a track-start offset mechanism",
-  "text": "Necessary condition only: a track timeline built from stts starts at 0, so preserving an A/V start offset needs an edit list (or a field depending on both first timestamps) in the audio trak. The rule enumerates the audio trak production of every A/V layout; on the pinned tree no mechanism exists: a genuine defect, recorded as a known finding (not small to repair). R2: no drift - run-length tables merge only exactly equal deltas (shared with C03.R6).",
+  "text": "Necessary condition only: a track timeline built from stts starts at 0, so preserving an A/V start offset needs an edit list (or a field depending on both first timestamps) in the audio trak. The rule enumerates the audio trak production of every A/V layout; on the pinned tree no mechanism exists: a genuine defect, recorded as a known finding (not small to repair). R2: no drift - run-length tables merge only exactly equal deltas (shared with C03.R6)."
+          " R1 also: an edit list must depend on the video track's first timestamp. R2 also: stts deltas are the elements' own durations.",
   "note": "Decides that the property cannot hold in general while the mechanism is absent; when one appears, presence and data dependence are checked, not its +-1 tick arithmetic (value-level)."},
  "C12": {
   "technique": "whole-library panic/termination obligation inventory on MIR (overflow checks on) discharged by dominating-guard entailment (Fourier-Motzkin over guards, asserts, loop-header invariants, caller-established parameter facts, callee postconditions), finite-domain evaluation of extracted expressions, and named lemmas with machine-checked side conditions",
@@ -95,7 +101,8 @@ CLAIMS = {
           "(about 350 obligations, 60 loops) and must be discharged: D1 constant / finite-domain evaluation, D2 entailed by the guards that dominate it (with inferred loop-header bounds, trip-count bounds, postconditions of local callees, field "
           "intervals of crate-constructed structs and facts every call site of a non-public function establishes), D3 a named lemma whose applicability pattern and numeric side conditions are re-established from the current source on every run "
           "(L-ITER, L-SCHEDULE, L-ALLOC, L-COUNT, L-WRAP, L-OBUITEM, L-OBUSTEP, L-CURSOR, L-NONEMPTY, L-BOXLEN, L-WIDTH, L-MODSTEP, L-CORRELATED, L-TLS/L-REFCELL/L-SORT). Anything undischarged is a violation unless it is one of the listed known "
-          "findings (each with a concrete panicking input). This is the for-all-inputs statement tests cannot make.",
+          "findings (each with a concrete panicking input). This is the for-all-inputs statement tests cannot make."
+          " Slicing a str is discharged only for whole-string ranges (char boundaries).",
   "note": "Assumptions: 64-bit usize; allocation failure/capacity overflow/stack exhaustion excluded; A1 fewer than 2^32-1 samples per track / fragments per muxer; A2 live buffers total < 2^62 bytes. Trusted: the entailment engine (lib/mx/absint.py), "
           "the classification of panicking std callees, the lemma side-condition checkers. `Promptly`: loops are bounded by buffer lengths or constants; a loop bounded only by an input's magnitude is reported. Panics inside dependencies that are not caused by a violated documented precondition are out of scope."},
  "C16": {
@@ -122,7 +129,8 @@ CLAIMS = {
  "C18": {
   "technique": "layout interpretation: user-data production vs iTunes metadata layout; non-interference of the metadata parameter over the whole moov production",
   "text": "udta is emitted iff the item list is non-empty and has the layout udta>meta(0)>hdlr(mdir)+ilst>items with data(type 1, locale 0) followed by the title's bytes verbatim; the `metadata` parameter occurs nowhere in the moov production except under udta and in the mdhd language field; both mdhd language fields derive from metadata.language with the `und` default. R4: the (year, month, day) expressions extracted from the creation-date conversion equal the proleptic Gregorian calendar on every day of 400-year eras (exhaustive evaluation of the extracted expressions; year affine in the era). R5: single-attribute metadata setters update in place; only with_metadata(Metadata) replaces."
-          " R6: both language encoders evaluated on all 26^3 codes against the ISO formula. R4 also: day count = secs/86400 and the hour/minute/second expressions evaluated for all 86400 seconds of a day.",
+          " R6: both language encoders evaluated on all 26^3 codes against the ISO formula. R4 also: day count = secs/86400 and the hour/minute/second expressions evaluated for all 86400 seconds of a day."
+          " R5 also: attribute setters store the parameter itself, not rewritten in place; R3 also: the string handed to the language packing is metadata.language or `und` through Option plumbing only.",
   "note": "Not decided: the calendar conversion and the 5-bit language packing as arithmetic functions; termination for huge creation times is C12."},
  "C20": {
   "technique": "MIR rules on the bin crate: single-consumer flow of the output File, argument slices, dominance by the Ok edge of finish, store inventory of the verdict flag, loop-variant guard extraction",
